@@ -553,6 +553,10 @@ class FactsProblem(Problem):
                         if kill_path_of_target(t) == tt and not mentions(T(la[0]), tt):
                             new_ub.append((tt, T(la[0]), max(la[1], lb[1])))
                             new_ub.append((T(la[0]), tt, -min(la[1], lb[1])))
+            zpre = None
+            if simple and isinstance(value, ast.Call) and isinstance(value.func, ast.Name) and value.func.id in ("min", "max"):
+                zpre = z.copy()          # what held about the arguments before the target is overwritten (x = max(x, e))
+                zpre.close()
             for t in store_targets(s):
                 kp = kill_path_of_target(t)
                 if kp is None:
@@ -583,18 +587,19 @@ class FactsProblem(Problem):
                             new_ub.append((T(la[0]), tt, -la[1]))
                     # max(a, b) <= t + k  when every argument is (min: >= when every argument is)
                     if all(la is not None for la in lins):
-                        z.close()
-                        for term in list(z.terms()) + [ZERO]:
+                        zq = zpre if zpre is not None else z
+                        zq.close()
+                        for term in list(zq.terms()) + [ZERO]:
                             if mentions(term, tt):
                                 continue
                             ks = []
                             for la in lins:
                                 ta = T(la[0])          # type: ignore[index]
                                 if value.func.id == "max":
-                                    k = 0 if ta == term else z.d.get((ta, term))
+                                    k = 0 if ta == term else zq.d.get((ta, term))
                                     ks.append(None if k is None else k + la[1])          # type: ignore[index]
                                 else:
-                                    k = 0 if ta == term else z.d.get((term, ta))
+                                    k = 0 if ta == term else zq.d.get((term, ta))
                                     ks.append(None if k is None else k - la[1])          # type: ignore[index]
                             if all(k is not None for k in ks):
                                 if value.func.id == "max":
